@@ -39,17 +39,18 @@ partial def loop (h : IO.FS.Stream) : IO Unit := do
   | "hb2" :: d :: acts =>
     let plan := acts.filterMap parseAction
     IO.println (fmt (insertHB2 plan d.toNat!))
-  | "chk" :: ps :: acts =>
-    -- ps = p,p;p;;…  (parents of commit i, ';'-separated, '-' for none)
+  | "chk" :: ps :: rs :: acts =>
+    -- ps = p,p;p;;…  (parents of commit i, ';'-separated, '-' for none); rs = retained commits or '*'
     let parents := (ps.splitOn ";").map fun s => if s = "-" then [] else (s.splitOn ",").filterMap (·.toNat?)
     let plan := acts.filterMap parseAction
-    let retained := List.range parents.length
+    let retained := if rs = "*" then List.range parents.length else (rs.splitOn ",").filterMap (·.toNat?)
+    if !retainedOK parents retained then IO.println "bad incomplete" else
     match checkPlan true parents retained plan with
     | .ok _ => IO.println "ok"
-    | .error e =>
+    | .error _ =>
       match checkPlan false parents retained plan with
-      | .ok _ => IO.println s!"bad extra-replay-only ({e})"
-      | .error e2 => IO.println s!"bad incomplete ({e2})"
+      | .ok _ => IO.println "bad extra-replay-only"
+      | .error _ => IO.println "bad incomplete"
   | "run2" :: its :: ts :: n :: acts =>
     let items := (its.splitOn ";").filterMap parseItem
     let times := (ts.splitOn ",").filterMap (·.toInt?)
